@@ -270,10 +270,10 @@ def trust_key(t):
 
 
 # ----------------------------------------------------------------------------- one unit
-def run_unit(unit, tag="", substs=None, canary=None, seed=None, rlimit=RLIMIT):
+def run_unit(unit, tag="", substs=None, canary=None, seed=None, rlimit=RLIMIT, isolate=False):
     out = os.path.join(BUILD, tag, unit + ("_canary" if canary else "") + ".rs")
     try:
-        meta = X.build_unit(unit_spec(unit), out, substs=substs, canary=canary)
+        meta = X.build_unit(unit_spec(unit), out, substs=substs, canary=canary, isolate=isolate)
     except X.ExtractError as e:
         return dict(unit=unit, status="extract-error", detail=str(e))
     res = run_verus(out, rlimit=rlimit, seed=seed)
@@ -460,7 +460,9 @@ def check(pid, tier, seed, rebaseline=False):
         fails = list(r["failures"])
         if r["status"] == "rlimit" or fails:
             # second opinion: 4x resources, another z3 seed
-            r2 = run_unit(u, tag="retry", seed=(seed or 0) + 1, rlimit=RLIMIT_RETRY)
+            # (isolate: one z3 process per function - a failed query can make the next ones in the
+            #  same solver session fail spuriously, observed with bdd_to_dnf_recursive after a broken diff)
+            r2 = run_unit(u, tag="retry", seed=(seed or 0) + 1, rlimit=RLIMIT_RETRY, isolate=True)
             if r2["status"] == "ok":
                 notes.append("%s: first attempt %s, verified on retry with rlimit %d" % (u, r["status"], RLIMIT_RETRY))
                 r, fails = r2, []
